@@ -43,12 +43,20 @@ def gen_ops(rng, n, model=None):
             s, d = src(), dst()
             if rng.random() < 0.15: d = s
             if rng.random() < 0.1: d = s + "/" + rng.choice(NAMES)
+            if s.startswith(d + "/"): d = d + "-x"       # a Destination that is an ancestor of the source: see anc_note below
             ops.append(("copy", s, d, rng.random() < 0.7, rng.random() < 0.2, rng.choice(["plain", "plain", "dots", "abs", "enc"])))
         else:
             s, d = src(), dst()
             if rng.random() < 0.15: d = s
+            if s.startswith(d + "/"): d = d + "-x"
             ops.append(("move", s, d, rng.random() < 0.7, rng.choice(["plain", "plain", "dots", "abs", "enc"])))
     return ops
+
+
+# anc_note: RFC 4918 asks for "DELETE the destination, then copy/move" when the destination exists; if the destination is an ancestor of
+# the source that deletes the source too, and no server can then carry out the rest.  lighttpd merges the collection into the ancestor;
+# the reference tree has nothing to say, so random sequences do not generate the case (a file onto its own parent collection, where
+# lighttpd's own cp-like reading makes source and destination the same path, is refused since fix 8258ef5 and is in the fixed sequences)
 
 
 def spell_dest(d, how, port):
@@ -132,6 +140,11 @@ def run_sequence(ctx, name, ops, model, sanitize=False):
                 res = ("%s of the collection %s onto the existing non-collection %s with Overwrite T is refused (status %s, nothing changed): mod_webdav_copymove_b() appends '/' to the "
                        "Destination of a collection and then cannot see the file it would have to replace (RFC 4918 9.8.4: delete the destination, then copy)" % (op[0].upper(), op[1], op[2], st),
                        i, st, "collection-onto-non-collection"); break
+            if op[0] in ("copy", "move") and op[1] in prev_dirs and op[2] in prev_dirs and got_ok and want_ok and real != (mlist.split() if mlist else []):
+                ex = [x for x in real if x not in mlist.split()]; mi = [x for x in mlist.split() if x not in real]
+                if ex and not mi and all(x.startswith(op[2] + "/") and x in prev_real for x in ex):
+                    res = ("%s of the collection %s onto the existing collection %s with Overwrite T merges into it (status %s): what was in the destination and is not overwritten stays (%s), "
+                           "where RFC 4918 9.8.4 / 9.9.3 prescribe a Depth-infinity DELETE of the destination first" % (op[0].upper(), op[1], op[2], st, ex[:3]), i, st, "collection-onto-collection-merged"); break
             if real != (mlist.split() if mlist else []):
                 extra = [x for x in real if x not in mlist.split()][:3]; missing = [x for x in mlist.split() if x not in real][:3]
                 res = ("after %s (status %s) the directory differs from the tree RFC 4918 prescribes: unexpected %s, missing %s" % (op[:3] if op[0] != "put" else op[:2], st, extra, missing), i, st); break
@@ -204,6 +217,9 @@ def run(ctx):
     # the two recorded deviations, reproduced on every run (known_findings.txt)
     seqs.insert(1, [("mkcol", "/sub"), ("put", "/d1", b"D1"), ("copy", "/sub", "/d1", True, True, "plain")])
     seqs.insert(2, [("put", "/x.txt", b"X"), ("mkcol", "/d2"), ("copy", "/x.txt", "/d2", True, False, "plain")])
+    seqs.insert(3, [("mkcol", "/sub"), ("mkcol", "/d2"), ("mkcol", "/d2/b"), ("move", "/sub", "/d2", True, "plain")])
+    # a file sent onto its own parent collection (fix 8258ef5: used to answer 204 and lose the file)
+    seqs.insert(3, [("mkcol", "/d1"), ("put", "/d1/sub", b"S"), ("move", "/d1/sub", "/d1", True, "plain"), ("copy", "/d1/sub", "/d1", True, False, "abs"), ("put", "/d1/sub", b"T")])
     from concurrent.futures import ThreadPoolExecutor
     with ThreadPoolExecutor(max_workers=8) as ex:
         outs = list(ex.map(lambda a: run_sequence(ctx, "q%d" % a[0], a[1], model), enumerate(seqs)))
